@@ -76,7 +76,7 @@ Proof. exact no_cfg_unconditional. Qed.
 Theorem C18_never_panics : forall objs,
   (exists gs, propagate_cfg objs = Ok gs /\ List.length gs = List.length (preorder objs)) /\
   (exists gs, propagate_cfg_fixed objs = Ok gs /\ List.length gs = List.length (preorder objs)).
-Proof. intro objs; split; [exact (propagate_cfg_total objs) | exact (propagate_cfg_fixed_total objs)]. Qed.
+Proof. exact never_panics. Qed.
 
 (* ---- non-vacuity ---- *)
 
